@@ -74,7 +74,9 @@ pub fn exec(op: &str, a: &[String]) -> Option<Reply> {
             let log = if r.log.is_empty() { "-".to_string() } else { r.log.join(" | ") };
             Some(Reply::oracle(vec![dump, show(&info.target_queries), show(&info.target_assignments), log]))
         }
-        (o, [src, event, metadata, faults]) if o.starts_with("o.c") => {
+        // only the oracles of the language-core properties: anything else with four inputs (`o.c14 … <seed>`)
+        // belongs to another module
+        (o, [src, event, metadata, faults]) if ["o.c06", "o.c07", "o.c08", "o.c09", "o.c13", "o.c17"].contains(&o) => {
             // Spec oracle: same run; the observed outcome/event/metadata/variables are observations
             let r = exec("lang.run", &[src.clone(), event.clone(), metadata.clone(), faults.clone()])?;
             let mut obs = r.obs;
